@@ -431,6 +431,20 @@ Definition chk_exact (c tti ttl nw : Z) (scan : list N) (prev : list (N * file))
       Bool.eqb gone due) prev
   else true.
 
+(* the same pointwise, as a function: which scanned files a TTL/TTI pass deletes, and the record
+   of file m after a pass over scan started in state s *)
+Definition ttl_due (tti ttl nw : Z) (inmap : bool) (f : file) : bool :=
+  negb (is_persisted f) && ready tti ttl nw (seen inmap nw f).
+Definition ttl_after (tti ttl : Z) (scan : list N) (s : st) (m : N) : option file :=
+  match aget m (dk s) with
+  | None => None
+  | Some f =>
+      if memb m scan
+      then (if ttl_due tti ttl (now s) (amem m (fm s)) f then None
+            else Some (seen (amem m (fm s)) (now s) f))
+      else Some f
+  end.
+
 (* clause 3 (policy pass): rank of a candidate, smaller = deleted earlier *)
 Definition served (mt acc : Z) : bool := 1000000000 <? Z.abs (mt - acc).        (* > 1 s *)
 Definition surely (mt acc : Z) : bool := 2700000000000 <? Z.abs (mt - acc).     (* > 45 min *)
@@ -529,3 +543,21 @@ Fixpoint chk_from (c nw : Z) (prev : list (N * file)) (pmap : list N) (ops : lis
 
 Definition C10_check (c t0 : Z) (ops : list op) (obsl : list obs) : bool :=
   chk_from c t0 [] [] ops obsl.
+
+(* ======== vocabulary of the theorems ======== *)
+
+(* what "still there, still protected, same data" means *)
+Definition stays (n : N) (f : file) (s' : st) : Prop :=
+  exists f', aget n (dk s') = Some f' /\ is_persisted f' = true
+             /\ f_mtime f' = f_mtime f /\ f_size f' = f_size f.
+
+
+(* the scan lists of a history are duplicate-free (a directory listing) *)
+Definition op_ok (o : op) : bool :=
+  match o with
+  | TtlPass _ _ _ _ scan => nodupb scan
+  | PolicyPass _ _ scan _ => nodupb scan
+  | Cleanup _ _ _ scan _ => nodupb scan
+  | _ => true
+  end.
+
